@@ -524,6 +524,8 @@ class ExcelCompiler:
             try:
                 if addr in self.cell_map:
                     walk_dependents(self.cell_map[addr])
+                    # the inputs themselves (cells or ranges) must survive
+                    needed_cells.add(addr)
                     msg = ''
                 else:
                     msg = 'warning', f'Address {addr} not found in cell_map'
